@@ -306,6 +306,12 @@ def same_value(a, b) -> bool:
     return a == b
 
 
+def _big_golomb(rng):
+    """Integers beyond what a double holds exactly, and just below powers of two (where float logarithms round up)."""
+    k = rng.choice([49, 53, 54, 63, 64, 65, 100])
+    return rng.choice([(1 << 53) + 1, (1 << k) - 2, (1 << k) - 1, (1 << k), (1 << k) + 1, rng.getrandbits(70) | (1 << 69) | 1])
+
+
 def rand_value(rng, name: str, n: int):
     """A boundary-biased in-range value for (dtype, n)."""
     name = canon(name)
@@ -332,9 +338,9 @@ def rand_value(rng, name: str, n: int):
     if name == 'bits':
         return format(rng.getrandbits(n), f'0{n}b') if n else ''
     if name in ('ue', 'uie'):
-        return rng.choice([0, 1, 2, 3, 6, 7, 8, 255, 256, rng.getrandbits(rng.choice([4, 12, 40]))])
+        return rng.choice([0, 1, 2, 3, 6, 7, 8, 255, 256, rng.getrandbits(rng.choice([4, 12, 40])), _big_golomb(rng)])
     if name in ('se', 'sie'):
-        return rng.choice([0, 1, -1, 2, -2, 7, -8, 255, -256, rng.getrandbits(rng.choice([4, 12, 40])) - (1 << 11)])
+        return rng.choice([0, 1, -1, 2, -2, 7, -8, 255, -256, rng.getrandbits(rng.choice([4, 12, 40])) - (1 << 11), _big_golomb(rng) * rng.choice([1, -1])])
     raise KeyError(name)
 
 
